@@ -74,7 +74,7 @@ def run(chk, replay=None):
                 "base transactions from the value grid with a hash of VERIF_SEED and emits each as drawn / balanced / "
                 "balanced-then-off-by-one with the reference verdict, checking the balance algebra in every case; the "
                 "driver builds the era's concrete transaction, mock ledger state (UTxO, registered pools) and protocol "
-                "parameters, calls the era's UtxoValidateValueNotConservedUtxo at three scales (x1, x10^6, ~2^62) plus "
+                "parameters, calls the era's UtxoValidateValueNotConservedUtxo at three scales (x1, x10^6, ~2^62), each with a different concrete identity of the model's two assets (names differing by a trailing 0x00, \"\" vs 0x00, prefix-related, 32 bytes differing in the last one, random, same name under two policy ids), plus "
                 "once after a CBOR encode/decode round trip, and compares accept/reject with the TLC row; it also "
                 "confirms the rule is in the era's UtxoValidationRules. A case is one (abstract transaction, scale, "
                 "policy class); non-trivial when it has a certificate, asset, withdrawal, donation or proposal")
@@ -102,6 +102,9 @@ def run(chk, replay=None):
         m = re.search(r":sc=1:pol=([a-z]+)(:zeroes)?", rp.get("key", ""))
         if m:
             env = {"C27_FORCE_POL": m.group(1), "C27_FORCE_ZEROES": "1" if m.group(2) else "0"}
+        m = re.search(r":nm=([a-z0-9]+):sc=", rp.get("key", ""))
+        if m and m.group(1) not in ("na", "unused"):
+            env["C27_FORCE_NM"] = m.group(1)
         vlib.run_driver(chk, drv, [path], timeout=120, env=env)
         chk.exhaustive = False
         return
